@@ -34,9 +34,10 @@
 (* Deliberate deviations / quirks modelled as found (named):                                                      *)
 (*  (1) InitLeavesDir: InitializeQueue creates the directory before NewQueue validates the size, so a refused     *)
 (*      (too small) InitializeQueue leaves an empty directory behind (removed by the next Start: it is untracked) *)
-(*  (2) KickOnOpen: FALSE = as found: run() starts SendWrite only on `receive` or on the retry timer, so batches  *)
-(*      found on disk by Start are not forwarded until the next local write for that replication                  *)
-(*      (NoStrandedBatch fails: Lead_strand config).  TRUE = the goroutine is kicked once when it is started.     *)
+(*  (2) KickOnOpen: FALSE = as found: run() called SendWrite only on `receive` or on the retry timer, so batches   *)
+(*      found on disk by Start were not forwarded until the next local write for that replication                 *)
+(*      (NoStrandedBatch fails: Lead_strand config; reproduced on the real code).  TRUE = repaired in /repo:      *)
+(*      run() makes one pass over the queue when the goroutine starts.                                            *)
 (*  (3) Deliver is one step (the partial states of a drain are Replication.tla's subject, C27).                   *)
 (*  (4) Torn appends are DurableQueue.tla's subject (C26): Crash falls between calls.                             *)
 EXTENDS Integers, Sequences, FiniteSets, TLC
@@ -48,9 +49,16 @@ CONSTANTS Ids,           \* replication ids (model strings)
           MaxBatches,    \* batches 1..MaxBatches, numbered in enqueue order
           MaxOps,        \* bound on Len(hist) (generation configs)
           Menu,          \* names of the actions enabled in this config
+          Prefix,        \* generation configs: names of the first actions of every history (<<>> = free)
+          Refusals,      \* result classes of refused calls that this config generates (all of them in checking configs)
           KickOnOpen,    \* see (2)
           InitLeavesDir, \* see (1)
           Record         \* keep hist (generation configs)
+
+\* values for Prefix (a cfg file cannot write a sequence)
+NoPrefix == <<>>
+PrefixInitTrack == <<"init", "track">>
+PrefixTwoQueues == <<"init", "track", "enq", "init", "enq">>
 
 VARIABLES tracked, disk, phase, mgr, nextB, want, hist
 vars == <<tracked, disk, phase, mgr, nextB, want, hist>>
@@ -110,7 +118,10 @@ Obs(d, p, m) ==
    rem  |-> [i \in Ids |-> IF m[i].open THEN Remaining(d[i].segs) ELSE -1],    \* RemainingQueueSizes
    held |-> {i \in Ids : m[i].held}]
 Log(rec) == hist' = IF Record THEN Append(hist, rec) ELSE hist
-Can(a) == a \in Menu /\ (Record => Len(hist) < MaxOps)
+Can(a) == /\ a \in Menu
+          /\ Record => Len(hist) < MaxOps
+          /\ Len(hist) < Len(Prefix) => a = Prefix[Len(hist) + 1]
+May(r) == r = "ok" \/ r \in Refusals
 Up == phase = "up"
 Rec(a, i, n, r, sent, d, p, m) == [a |-> a, id |-> i, n |-> n, res |-> r, sent |-> sent, exp |-> Obs(d, p, m)]
 
@@ -125,7 +136,7 @@ Init == /\ tracked = [i \in Ids |-> 0]
 \* ------------------------------------------------------------------ manager calls
 InitRes(i, n) == IF mgr[i].open THEN "exists" ELSE IF n < MinMax THEN "toosmall" ELSE "ok"
 DoInit(i, n) ==
-  /\ Up /\ Can("init")
+  /\ Up /\ Can("init") /\ May(InitRes(i, n))
   /\ LET r  == InitRes(i, n)
          o  == OpenQ(disk[i].segs)
          d1 == IF r = "ok" THEN [disk EXCEPT ![i] = [ex |-> TRUE, segs |-> o.segs]]
@@ -141,7 +152,7 @@ DoInit(i, n) ==
 
 DeleteRes(i) == IF mgr[i].open THEN "ok" ELSE "notfound"
 DoDelete(i) ==
-  /\ Up /\ Can("delete")
+  /\ Up /\ Can("delete") /\ May(DeleteRes(i))
   /\ LET r  == DeleteRes(i)
          d1 == IF r = "ok" THEN [disk EXCEPT ![i] = NoD] ELSE disk
          m1 == IF r = "ok" THEN [mgr EXCEPT ![i] = NoQ] ELSE mgr
@@ -152,7 +163,7 @@ DoDelete(i) ==
 
 UpdateRes(i, n) == IF ~mgr[i].open THEN "notfound" ELSE IF n < MinMax THEN "toosmall" ELSE "ok"
 DoUpdate(i, n) ==
-  /\ Up /\ Can("update")
+  /\ Up /\ Can("update") /\ May(UpdateRes(i, n))
   /\ LET r  == UpdateRes(i, n)
          m1 == IF r = "ok" THEN [mgr EXCEPT ![i].max = n] ELSE mgr
      IN /\ mgr' = m1
@@ -161,7 +172,7 @@ DoUpdate(i, n) ==
 
 EnqRes(i, L) == IF ~mgr[i].open THEN "notfound" ELSE IF mgr[i].tot + L > mgr[i].max THEN "full" ELSE "ok"
 DoEnq(i, L) ==
-  /\ Up /\ Can("enq") /\ nextB <= MaxBatches
+  /\ Up /\ Can("enq") /\ nextB <= MaxBatches /\ May(EnqRes(i, L))
   /\ LET r  == EnqRes(i, L)
          blk == [b |-> nextB, len |-> L]
          d1 == IF r = "ok" THEN [disk EXCEPT ![i].segs = AppendTo(@, blk)] ELSE disk
@@ -223,7 +234,7 @@ StartMgr ==
                        held |-> KickOnOpen /\ Pending(disk[i].segs) # <<>>]
                  ELSE NoQ]
 DoStart ==
-  /\ phase = "down" /\ Can("start")
+  /\ phase = "down" /\ Can("start") /\ (BadTracked # {} => May("startup"))
   /\ disk' = StartDisk
   /\ IF BadTracked = {}
      THEN /\ phase' = "up" /\ mgr' = StartMgr
@@ -264,45 +275,48 @@ SizesAreDiskUsage == \A i \in Ids : mgr[i].open =>
                         /\ Obs(disk, phase, mgr).rem[i] = SumBlocks(Pending(disk[i].segs))
 
 Core == <<tracked, disk, mgr, want>>
+\* (in the action properties the cheap state tests come first: TLC evaluates the action formula only where they hold)
 \* after a successful Start exactly the tracked ids have an open queue and a directory, each with what it held before
 StartContract ==
-  [][(DoStart /\ phase' = "up") =>
+  [][(phase = "down" /\ phase' = "up" /\ DoStart) =>
         /\ OpenIds(mgr') = Tracked
         /\ {i \in Ids : disk'[i].ex} = Tracked
         /\ \A i \in Tracked : /\ Pending(disk'[i].segs) = Pending(disk[i].segs)
                               /\ mgr'[i].max = tracked[i]]_vars
 \* a failed Start removes nothing
 FailedStartKeeps ==
-  [][(DoStart /\ phase' = "down") => \A i \in Ids : /\ disk[i].ex => disk'[i].ex
-                                                    /\ Pending(disk'[i].segs) = Pending(disk[i].segs)]_vars
+  [][(phase = "down" /\ phase' = "down" /\ DoStart) =>
+        \A i \in Ids : /\ disk[i].ex => disk'[i].ex
+                       /\ Pending(disk'[i].segs) = Pending(disk[i].segs)]_vars
 \* shutdown and crash keep the disk
-DownKeepsDisk == [][(DoCloseAll \/ DoCrash) => disk' = disk]_vars
+DownKeepsDisk == [][(phase = "up" /\ phase' = "down") => disk' = disk]_vars
 \* refused calls change nothing (except quirk (1))
 RefusalChangesNothing ==
-  [][/\ \A i \in Ids, n \in MaxSizes : (DoInit(i, n) /\ InitRes(i, n) = "exists") => UNCHANGED Core
-     /\ \A i \in Ids, n \in MaxSizes : (DoInit(i, n) /\ InitRes(i, n) = "toosmall") =>
+  [][/\ \A i \in Ids, n \in MaxSizes : (InitRes(i, n) = "exists" /\ DoInit(i, n)) => UNCHANGED Core
+     /\ \A i \in Ids, n \in MaxSizes : (InitRes(i, n) = "toosmall" /\ DoInit(i, n)) =>
               /\ UNCHANGED <<tracked, mgr, want>>
               /\ \A j \in Ids : Pending(disk'[j].segs) = Pending(disk[j].segs)
               /\ (~InitLeavesDir => disk' = disk)
-     /\ \A i \in Ids : (DoDelete(i) /\ DeleteRes(i) # "ok") => UNCHANGED Core
-     /\ \A i \in Ids, n \in MaxSizes : (DoUpdate(i, n) /\ UpdateRes(i, n) # "ok") => UNCHANGED Core
-     /\ \A i \in Ids, L \in Lens : (DoEnq(i, L) /\ EnqRes(i, L) # "ok") => UNCHANGED Core]_vars
+     /\ \A i \in Ids : (DeleteRes(i) # "ok" /\ DoDelete(i)) => UNCHANGED Core
+     /\ \A i \in Ids, n \in MaxSizes : (UpdateRes(i, n) # "ok" /\ DoUpdate(i, n)) => UNCHANGED Core
+     /\ \A i \in Ids, L \in Lens : (EnqRes(i, L) # "ok" /\ DoEnq(i, L)) => UNCHANGED Core]_vars
 \* Delete removes the directory, the map entry and the goroutine of that id and touches nothing else
 DeleteContract ==
-  [][\A i \in Ids : (DoDelete(i) /\ DeleteRes(i) = "ok") =>
+  [][\A i \in Ids : (DeleteRes(i) = "ok" /\ DoDelete(i)) =>
         /\ ~disk'[i].ex /\ ~mgr'[i].open /\ ~mgr'[i].held
         /\ \A j \in Ids \ {i} : disk'[j] = disk[j] /\ mgr'[j] = mgr[j]]_vars
-\* an accepted update is what later writes are judged by; an accepted write fits the limit
+\* an accepted update is what later writes are judged by; an accepted write is appended at the end of its queue
 UpdateContract ==
-  [][\A i \in Ids, n \in MaxSizes : (DoUpdate(i, n) /\ UpdateRes(i, n) = "ok") =>
+  [][\A i \in Ids, n \in MaxSizes : (UpdateRes(i, n) = "ok" /\ DoUpdate(i, n)) =>
         /\ mgr'[i].max = n /\ disk' = disk /\ \A j \in Ids \ {i} : mgr'[j] = mgr[j]]_vars
 EnqContract ==
-  [][\A i \in Ids, L \in Lens : (DoEnq(i, L) /\ EnqRes(i, L) = "ok") =>
+  [][\A i \in Ids, L \in Lens : (EnqRes(i, L) = "ok" /\ DoEnq(i, L)) =>
         /\ Nums(Pending(disk'[i].segs)) = Append(Nums(Pending(disk[i].segs)), nextB)
         /\ \A j \in Ids \ {i} : disk'[j] = disk[j]]_vars
 DeliverContract ==
-  [][\A i \in Ids : DoDeliver(i) => /\ Pending(disk'[i].segs) = <<>>
-                                     /\ \A j \in Ids \ {i} : disk'[j] = disk[j]]_vars
+  [][\A i \in Ids : (mgr[i].held /\ ~mgr'[i].held /\ DoDeliver(i)) =>
+        /\ Pending(disk'[i].segs) = <<>>
+        /\ \A j \in Ids \ {i} : disk'[j] = disk[j]]_vars
 
 View == <<tracked, disk, phase, mgr, nextB, want>>
 =============================================================================
